@@ -8,6 +8,7 @@
 Generate type stubs for configurations.
 """
 import inspect
+import re
 import types
 from typing import Any, Dict, Optional, Type, TypeVar, Union
 
@@ -61,7 +62,9 @@ def get_annotation_typestr(field: Union[BaseField, Type, str]) -> str:
         else:
             retval = storage_type.__name__
     else:
-        retval = str(storage_type)
+        # typing renders a class defined in a function body as ``module.func.<locals>.Cls``, which
+        # is not an expression: refer to such a class by its bare name
+        retval = re.sub(r"[\w.]*<locals>\.", "", str(storage_type))
 
     return retval or "typing.Any"
 
